@@ -231,3 +231,44 @@ package eddsa
 //@ ensures[scalar] isnil(result1) ==> scok && sdone
 //@ modifies nothing
 //@ end
+
+// The encoders of keys and signatures: the point's own encoding (an array, captured at the call) followed by the
+// remaining fields byte for byte; fresh results of the documented sizes; the object encoded is not written.
+//@ func PublicKey.Bytes
+//@ option nomerge
+//@ option opaque-calls
+//@ ghost encoded = false
+//@ cut after call Bytes #1
+//@ + ghost encoded = true
+//@ ensures[length] len(result) == sizePublicKey
+//@ ensures[point] encoded && forall(j, 0, sizeFr, result[j] == resultof_Bytes[j])
+//@ ensures[fresh] fresh(result)
+//@ modifies nothing
+//@ end
+
+//@ func PrivateKey.Bytes
+//@ option nomerge
+//@ option opaque-calls
+//@ ghost encoded = false
+//@ cut after call Bytes #1
+//@ + ghost encoded = true
+//@ ensures[length] len(result) == sizePrivateKey
+//@ ensures[point] encoded && forall(j, 0, sizeFr, result[j] == resultof_Bytes[j])
+//@ ensures[scalar] forall(j, 0, sizeFr, result[sizeFr + j] == privKey.scalar[j])
+//@ ensures[rand-source] forall(j, 0, sizePrivateKey - 2*sizeFr, result[2*sizeFr + j] == privKey.randSrc[j])
+//@ ensures[fresh] fresh(result)
+//@ modifies nothing
+//@ end
+
+//@ func Signature.Bytes
+//@ option nomerge
+//@ option opaque-calls
+//@ ghost encoded = false
+//@ cut after call Bytes #1
+//@ + ghost encoded = true
+//@ ensures[length] len(result) == sizeSignature
+//@ ensures[point] encoded && forall(j, 0, sizeFr, result[j] == resultof_Bytes[j])
+//@ ensures[scalar] forall(j, 0, sizeSignature - sizeFr, result[sizeFr + j] == sig.S[j])
+//@ ensures[fresh] fresh(result)
+//@ modifies nothing
+//@ end
